@@ -487,6 +487,7 @@ class RGraph:
         # container of misc caches used during git commits graph parsing
         __slots__ = (
             'done_commits', 'visited_commits', 'selected_commits', 'prev_branches_builds',
+            'prev_branches_rcommits',
             'builds_detector', 'branches_refs_map', 'components_versions_cache')
 
         def __init__(
@@ -496,6 +497,7 @@ class RGraph:
             self.visited_commits = {}  # {hexsha: [RCommit, ]}
             self.selected_commits = {}  # {hexsha: RCommit}
             self.prev_branches_builds = {}  # {iid: RBuild}
+            self.prev_branches_rcommits = {}  # {iid: RCommit} reported in prev branches
             self.builds_detector = builds_detector
             self.branches_refs_map = branches_refs_map
             self.components_versions_cache = components_versions_cache
@@ -794,23 +796,32 @@ class RGraph:
         assert result_accumdata.commit is None
 
         # ==== prepare fake "not-merged-yet" build info ======
-        all_commits_prev_branch = {
-            iid: commit
-            for rbuild in prev_branch.rbuilds.values()
-            for iid, commit in rbuild.rcommits.items()
-        } if prev_branch is not None else {}
-
         all_commits_in_this_branch = {
             iid
             for rbuild in cur_branch_rbuilds.values()
             for iid in rbuild.rcommits.keys()
         }
 
+        # report-related commits reachable from the head of this branch. Some of
+        # them may be not reported in builds of this branch (if the head itself
+        # belongs to one of previous branches) - still they are merged.
+        reachable_iids = set()
+        rc_stack = list(result_accumdata.rc_parents)
+        while rc_stack:
+            rcommit = rc_stack.pop()
+            if rcommit.iid not in reachable_iids:
+                reachable_iids.add(rcommit.iid)
+                rc_stack.extend(rcommit.parents)
+
         not_merged_rcommits = {
             iid: rcommit
-            for iid, rcommit in all_commits_prev_branch.items()
-            if rcommit.is_explicit and iid not in all_commits_in_this_branch
+            for iid, rcommit in repo_cache.prev_branches_rcommits.items()
+            if rcommit.is_explicit
+            and iid not in all_commits_in_this_branch
+            and iid not in reachable_iids
         }
+        for rbuild in cur_branch_rbuilds.values():
+            repo_cache.prev_branches_rcommits.update(rbuild.rcommits)
 
         # Get info about latest build in current branch - it will be a parent build
         # for the 'not-yet-merged' fake build.
